@@ -23,6 +23,9 @@ pub enum PathSel {
     Jax,
     /// rendered JAX files → `from_standard_transitive`
     JaxT,
+    /// own v3 encoding → `from_bytes` → `sub_ontology(root, leaves)`; root and
+    /// leaves are picked (always validly) from the source by these indices
+    Sub { root: u16, leaves: [u16; 3] },
 }
 
 impl PathSel {
@@ -34,10 +37,11 @@ impl PathSel {
             PathSel::RoundTrip => "as_bytes-roundtrip".into(),
             PathSel::Jax => "jax".into(),
             PathSel::JaxT => "jax-transitive".into(),
+            PathSel::Sub { .. } => "sub_ontology".into(),
         }
     }
     pub fn defaults(self) -> bool {
-        !matches!(self, PathSel::Builder)
+        !matches!(self, PathSel::Builder | PathSel::Sub { .. })
     }
 }
 
@@ -62,6 +66,8 @@ pub fn expected_facts(f: &Facts, path: PathSel) -> Facts {
         }
         PathSel::Bin(v) => restrict_to_version(f, v),
         PathSel::RoundTrip => f.clone(),
+        // the facts of a sub-ontology depend on the retained terms: see `build_case`
+        PathSel::Sub { .. } => f.clone(),
         PathSel::Jax | PathSel::JaxT => {
             let mut g = f.clone();
             for k in 0..3 {
@@ -88,7 +94,55 @@ pub fn build_path(f: &Facts, path: PathSel, noise: &JaxNoise) -> Result<Ontology
         }
         PathSel::Jax => SCRATCH.with(|s| via_jax(&expected_facts(f, path), noise, false, s)),
         PathSel::JaxT => SCRATCH.with(|s| via_jax(&expected_facts(f, path), noise, true, s)),
+        PathSel::Sub { root, leaves } => {
+            let src = via_binary(f, 3)?;
+            let m = Model::new(f);
+            let (r, ls) = sub_request(&m, root, leaves);
+            let rt = src.hpo(r).ok_or("root not found")?;
+            let lt: Vec<hpo::HpoTerm> = ls.iter().filter_map(|l| src.hpo(*l)).collect();
+            match guarded(|| src.sub_ontology(rt, lt)) {
+                Ok(Ok(o)) => Ok(o),
+                Ok(Err(e)) => Err(format!("sub_ontology(root={r}, leaves={ls:?}) error: {e}")),
+                Err(p) => Err(format!("PANIC in sub_ontology(root={r}, leaves={ls:?}): {p}")),
+            }
+        }
     }
+}
+
+/// A valid sub-ontology request: any term as root, leaves among root and its descendants.
+pub fn sub_request(m: &Model, root: u16, leaves: [u16; 3]) -> (u32, Vec<u32>) {
+    let r = if root % 3 == 0 && m.has(1) { 1 } else { m.ids[crate::gen::pick(root, m.ids.len())] };
+    let mut inside: Vec<u32> = m.desc[m.i(r)].iter().copied().collect();
+    inside.push(r);
+    let ls = leaves.iter().map(|p| inside[crate::gen::pick(*p, inside.len())]).collect();
+    (r, ls)
+}
+
+/// The facts a sub-ontology must describe, given the set of retained terms
+/// (which chain is retained among equally short ones is not specified).
+pub fn restricted_facts(f: &Facts, kept: &std::collections::BTreeSet<u32>) -> Facts {
+    let m = Model::new(f);
+    let mods = m.default_modifier().unwrap_or_default();
+    let mut exp = Facts::default();
+    for t in &f.terms {
+        if kept.contains(&t.id) && !exp.has_term(t.id) {
+            exp.terms.push(t.clone());
+        }
+    }
+    for (ch, p) in &f.edges {
+        if kept.contains(ch) && kept.contains(p) {
+            exp.edges.push((*ch, *p));
+        }
+    }
+    let phenotype: std::collections::BTreeSet<u32> = kept.iter().copied().filter(|t| m.has(*t) && !m.is_modifier_with(*t, &mods)).collect();
+    for k in 0..3 {
+        for (rid, (name, terms)) in &m.direct[k] {
+            if terms.iter().any(|t| phenotype.contains(t)) {
+                exp.recs[k].push(RecFact { id: *rid, name: name.clone(), terms: terms.iter().copied().filter(|t| kept.contains(t)).collect() });
+            }
+        }
+    }
+    exp
 }
 
 pub fn noise_strategy() -> impl Strategy<Value = JaxNoise> {
@@ -138,6 +192,8 @@ pub fn ont_case_strategy(max_terms: usize, max_recs: usize, rich_names: bool) ->
             Just(PathSel::RoundTrip),
             Just(PathSel::Jax),
             Just(PathSel::JaxT),
+            (any::<u16>(), any::<[u16; 3]>()).prop_map(|(root, leaves)| PathSel::Sub { root, leaves }),
+            (any::<u16>(), any::<[u16; 3]>()).prop_map(|(root, leaves)| PathSel::Sub { root, leaves }),
         ],
         noise_strategy(),
     )
@@ -155,7 +211,7 @@ pub struct Built {
 /// Builds the ontology of a case, observes it. A construction failure on
 /// in-domain facts is reported with signature `construct/<path>`.
 pub fn build_case(c: &OntCase, stats: &mut Stats) -> Result<Built, Failure> {
-    let expected = expected_facts(&c.facts, c.path);
+    let mut expected = expected_facts(&c.facts, c.path);
     let ont = match build_path(&c.facts, c.path, &c.noise) {
         Ok(o) => o,
         Err(e) => {
@@ -165,6 +221,21 @@ pub fn build_case(c: &OntCase, stats: &mut Stats) -> Result<Built, Failure> {
             )
         }
     };
+    if let PathSel::Sub { root, leaves } = c.path {
+        use hpo::annotations::AnnotationId;
+        let kept: std::collections::BTreeSet<u32> = guarded(|| ont.iter().map(|t| t.id().as_u32()).collect()).map_err(|p| Failure {
+            signature: "observe-panic/sub_ontology".into(),
+            message: p,
+        })?;
+        let m = Model::new(&c.facts);
+        let (r, ls) = sub_request(&m, root, leaves);
+        if !kept.contains(&r) || ls.iter().any(|l| !kept.contains(l)) || kept.iter().any(|t| !m.has(*t)) {
+            return fail("construct/sub_ontology/term-set", format!("sub_ontology(root={r}, leaves={ls:?}) retains {kept:?}"));
+        }
+        expected = restricted_facts(&c.facts, &kept);
+        // the release version of a sub-ontology is not specified
+        expected.version = (0, 0, 0);
+    }
     let model = Model::new(&expected);
     let snap = guarded(|| observe(&ont)).map_err(|p| Failure {
         signature: format!("observe-panic/{}", c.path.name()),
